@@ -19,6 +19,9 @@
 //        F<n>         (mode s) client writes its byte stream in fragments of n bytes from here on
 //        P<n>         requests from here on carry an extra argument of n bytes (large payloads => real back pressure)
 //        close        drop the senders (mode c only)
+//        L<id> E<id>  (mode s) a request the handler answers itself at once (reply id*100000 / error id*100000+99999)
+//        W            (mode s) the client writes what it has accumulated (without F the pipeline goes out in ONE write)
+//     mode s: after the script the client sends a sentinel request and reads until its reply, EOF or 60 s
 //     conn spec tokens, one per connection of that node, a trailing `*` repeats the spec for ever:
 //        R            create_conn fails
 //        c[,opt..]    a connection; options:
@@ -73,7 +76,9 @@ use undermoon::proxy::session::{handle_session, CmdCtx, CmdHandler, CmdReplyFutu
 use undermoon::proxy::slowlog::Slowlog;
 
 const ADDR: &str = "127.0.0.1:6399";
-const LOG_CAP: usize = 6000;
+const LOG_CAP: usize = 20000;
+const SENTINEL: u64 = 999_999;
+const SENTINEL_CAP_MS: u64 = 60_000;
 
 // ------------------------------------------------------------------------------------------------ shared log
 struct Shared {
@@ -96,11 +101,13 @@ impl Shared {
         }
     }
     // every task queued for `node` is received now
-    fn arrive_all(&self, node: usize) {
+    fn arrive_all(&self, node: usize) -> usize {
         let ids: Vec<u64> = self.mirror.lock()[node].drain(..).collect();
+        let n = ids.len();
         for id in ids {
             self.ev(node, &format!("arr{}", id));
         }
+        n
     }
 }
 
@@ -254,13 +261,25 @@ struct ConnState {
     node: usize,
     shared: Arc<Shared>,
     in_poll: AtomicBool,
+    // the last event logged for this connection was `poll`: an execution of the closure in which nothing happened.
+    // Consecutive empty polls are logged once (Poll;Poll has the effect of Poll in both variants of the model), otherwise
+    // a connection under back pressure produces thousands of `poll` tokens.
+    last_was_poll: AtomicBool,
 }
 
 impl ConnState {
+    fn ev(&self, s: &str) {
+        self.last_was_poll.store(false, Ordering::SeqCst);
+        self.shared.ev(self.node, s);
+    }
     fn begin_poll(&self) {
         if !self.in_poll.swap(true, Ordering::SeqCst) {
-            self.shared.ev(self.node, "poll");
-            self.shared.arrive_all(self.node);
+            if !self.last_was_poll.swap(true, Ordering::SeqCst) {
+                self.shared.ev(self.node, "poll");
+            }
+            if self.shared.arrive_all(self.node) > 0 {
+                self.last_was_poll.store(false, Ordering::SeqCst);
+            }
         }
     }
     fn end_poll(&self) {
@@ -280,9 +299,7 @@ struct WSink {
 impl WSink {
     fn note<T>(&self, r: Poll<Result<T, BackendError>>) -> Poll<Result<T, BackendError>> {
         if let Poll::Ready(Err(e)) = &r {
-            self.cs
-                .shared
-                .ev(self.cs.node, &format!("werr:{}", berr_name(e)));
+            self.cs.ev(&format!("werr:{}", berr_name(e)));
         }
         r
     }
@@ -307,19 +324,17 @@ impl Sink<RespPacket> for WSink {
         self.nsend += 1;
         let id = packet_id(&item).unwrap_or(999_999);
         if self.wfail == Some(self.nsend) {
-            self.cs.shared.ev(self.cs.node, "werr:io");
+            self.cs.ev("werr:io");
             return Err(BackendError::Io(io::Error::from(io::ErrorKind::BrokenPipe)));
         }
         match self.inner.as_mut().start_send(item) {
             Ok(()) => {
                 self.naccepted += 1;
-                self.cs.shared.ev(self.cs.node, &format!("w{}", id));
+                self.cs.ev(&format!("w{}", id));
                 Ok(())
             }
             Err(e) => {
-                self.cs
-                    .shared
-                    .ev(self.cs.node, &format!("werr:{}", berr_name(&e)));
+                self.cs.ev(&format!("werr:{}", berr_name(&e)));
                 Err(e)
             }
         }
@@ -347,18 +362,15 @@ impl Stream for RStream {
         let r = self.inner.as_mut().poll_next(cx);
         match &r {
             Poll::Pending => self.cs.end_poll(),
-            Poll::Ready(None) => self.cs.shared.ev(self.cs.node, "closed"),
+            Poll::Ready(None) => self.cs.ev("closed"),
             Poll::Ready(Some(Ok(p))) => {
                 let txt = match p.to_resp_vec() {
                     Resp::Bulk(BulkStr::Str(b)) => String::from_utf8_lossy(&b).to_string(),
                     other => format!("x{}", resp_to_string(&other).replace(' ', "_")),
                 };
-                self.cs.shared.ev(self.cs.node, &format!("rp{}", txt));
+                self.cs.ev(&format!("rp{}", txt));
             }
-            Poll::Ready(Some(Err(e))) => self
-                .cs
-                .shared
-                .ev(self.cs.node, &format!("rerr:{}", berr_name(e))),
+            Poll::Ready(Some(Err(e))) => self.cs.ev(&format!("rerr:{}", berr_name(e))),
         }
         r
     }
@@ -366,7 +378,7 @@ impl Stream for RStream {
 
 impl Drop for RStream {
     fn drop(&mut self) {
-        self.cs.shared.ev(self.cs.node, "drop");
+        self.cs.ev("drop");
     }
 }
 
@@ -436,6 +448,7 @@ impl ConnFactory for NodeConnFactory {
                 node,
                 shared: shared.clone(),
                 in_poll: AtomicBool::new(false),
+                last_was_poll: AtomicBool::new(false),
             });
             shared.ev(node, "cok");
             let sink: ConnSink<RespPacket> = Box::pin(WSink {
@@ -541,6 +554,8 @@ fn classify_resp(r: &RespVec) -> String {
                     "other"
                 };
                 format!("taskerr:{}", k)
+            } else if s.starts_with("LOCALERR ") {
+                format!("rep{}", &s["LOCALERR ".len()..])
             } else if s.starts_with("failed to connect to") {
                 "connfailed".to_string()
             } else if s.starts_with("ERR_BACKEND_CONNECTION") {
@@ -607,8 +622,31 @@ struct SessHandler {
 impl CmdHandler for SessHandler {
     fn handle_cmd(&self, cmd: Command) -> CmdReplyFuture {
         let id = packet_id(&cmd.get_packet()).unwrap_or(999_999);
+        let name = cmd
+            .get_command_name()
+            .map(|n| n.to_uppercase())
+            .unwrap_or_default();
         let (s, r) = new_command_pair(&cmd);
         let ctx = CmdCtx::new(cmd, s, 7, false);
+        if name == "LOCAL" || name == "LOCALERR" {
+            // answered by the handler itself, without a backend round trip: the reply future is ready at once
+            // (stands for PING / ECHO / CLUSTER .. / unknown command / cluster-not-found of the real command handler).
+            // Payload id*100000 (connection 0) for a reply, id*100000+99999 for a locally generated error.
+            let (payload, reply) = if name == "LOCAL" {
+                let p = id * 100_000;
+                (p, Resp::Bulk(BulkStr::Str(p.to_string().into_bytes())))
+            } else {
+                let p = id * 100_000 + 99_999;
+                (p, Resp::Error(format!("LOCALERR {}", p).into_bytes()))
+            };
+            ctx.set_resp_result(Ok(reply));
+            if id != SENTINEL {
+                self.shared.ev(9, &format!("sreq{}", id));
+                self.shared.ev(9, &format!("sloc{}={}", id, payload));
+                self.shared.done.lock().push((id, format!("rep{}", payload)));
+            }
+            return Either::Left(r);
+        }
         let node = self.counter.fetch_add(1, Ordering::SeqCst) % self.nconn;
         self.shared.ev(9, &format!("sreq{}", id));
         self.shared.ev(node, &format!("sub{}", id));
@@ -706,7 +744,8 @@ fn run_pipe(toks: &[&str]) -> String {
         }
     };
     let res = rt.block_on(async move {
-        match tokio::time::timeout(Duration::from_millis(wait_ms + 8000), body).await {
+        let cap = if session_mode { SENTINEL_CAP_MS + 10_000 } else { wait_ms + 8000 };
+        match tokio::time::timeout(Duration::from_millis(cap), body).await {
             Ok(s) => s,
             Err(_) => "case-timeout".to_string(),
         }
@@ -833,6 +872,10 @@ async fn run_session(
         for tok in script.iter() {
             let tok = tok.as_str();
             if tok == "y" {
+                if !pendingbuf.is_empty() {
+                    let _ = cwr.write_all(&pendingbuf).await;
+                    pendingbuf.clear();
+                }
                 for _ in 0..3 {
                     tokio::task::yield_now().await;
                 }
@@ -842,15 +885,26 @@ async fn run_session(
                     pendingbuf.clear();
                 }
                 tokio::time::sleep(Duration::from_millis(ms.parse().expect("z"))).await;
+            } else if tok == "W" {
+                if !pendingbuf.is_empty() {
+                    let _ = cwr.write_all(&pendingbuf).await;
+                    let _ = cwr.flush().await;
+                    pendingbuf.clear();
+                }
+                tokio::task::yield_now().await;
             } else if let Some(n) = tok.strip_prefix('F') {
                 frag = n.parse().expect("F");
             } else if let Some(n) = tok.strip_prefix('P') {
                 pad = n.parse().expect("P");
-            } else if let Some(id) = tok.strip_prefix('s') {
-                let id: u64 = id.parse().expect("id");
+            } else if tok.starts_with('s') || tok.starts_with('L') || tok.starts_with('E') {
+                let id: u64 = tok[1..].parse().expect("id");
                 ids.push(id);
                 let idb = id.to_string();
-                let req = if pad == 0 {
+                let req = if tok.starts_with('L') {
+                    format!("*2\r\n$5\r\nLOCAL\r\n${}\r\n{}\r\n", idb.len(), idb).into_bytes()
+                } else if tok.starts_with('E') {
+                    format!("*2\r\n$8\r\nLOCALERR\r\n${}\r\n{}\r\n", idb.len(), idb).into_bytes()
+                } else if pad == 0 {
                     format!("*2\r\n$4\r\nECHO\r\n${}\r\n{}\r\n", idb.len(), idb).into_bytes()
                 } else {
                     format!(
@@ -871,10 +925,8 @@ async fn run_session(
                         let _ = cwr.flush().await;
                         tokio::task::yield_now().await;
                     }
-                } else {
-                    let _ = cwr.write_all(&pendingbuf).await;
-                    pendingbuf.clear();
                 }
+                // without F the pipeline is accumulated and goes out in ONE client write (at W / y / z / the end)
             } else {
                 panic!("bad script token {}", tok);
             }
@@ -882,6 +934,12 @@ async fn run_session(
         if !pendingbuf.is_empty() {
             let _ = cwr.write_all(&pendingbuf).await;
         }
+        let _ = cwr.flush().await;
+        // sentinel: one more, uniquely tagged, locally answered request; its reply can only come after every other reply
+        tokio::task::yield_now().await;
+        let sb = SENTINEL.to_string();
+        let req = format!("*2\r\n$5\r\nLOCAL\r\n${}\r\n{}\r\n", sb.len(), sb).into_bytes();
+        let _ = cwr.write_all(&req).await;
         let _ = cwr.flush().await;
         ids
     };
@@ -891,15 +949,20 @@ async fn run_session(
     let mut codec = RespCodec::new(enc, dec);
     let mut buf = bytes::BytesMut::new();
     let mut replies: Vec<String> = vec![];
-    let deadline = tokio::time::Instant::now() + Duration::from_millis(wait_ms);
-    'outer: while replies.len() < ids.len() {
+    // load-independent wait: read until the sentinel's reply (it is behind every other reply in the session FIFO), EOF,
+    // or a generous cap; silence = the sentinel's reply never arrives while the connection is open
+    let _ = wait_ms;
+    let sentinel_reply = format!("rep{}", SENTINEL * 100_000);
+    let deadline = tokio::time::Instant::now() + Duration::from_millis(SENTINEL_CAP_MS);
+    'outer: loop {
         loop {
             match codec.decode(&mut buf) {
                 Ok(Some(p)) => {
-                    replies.push(classify_resp(&p.to_resp_vec()));
-                    if replies.len() >= ids.len() {
+                    let c = classify_resp(&p.to_resp_vec());
+                    if c == sentinel_reply {
                         break 'outer;
                     }
+                    replies.push(c);
                 }
                 Ok(None) => break,
                 Err(_) => {
